@@ -72,6 +72,33 @@ def const_len(e):
     return None
 
 
+def rule_utf16(ctx, rid):
+    P = ctx.prog
+    # ---- R04.6 the text encoders: UTF-16 code units from str::encode_utf16 (surrogate pairs above U+FFFF), written little-endian ---------
+    for fn in ('<std::string::String as model::unicode::Unicode>::to_unicode', 'nla::ntlm::unicode'):
+        ub = ctx.body(fn)
+        names = [c.callee for c in ub.calls]
+        enc = any(n.endswith('encode_utf16') for n in names) or any(n.endswith('Unicode>::to_unicode') or n.endswith('Unicode::to_unicode') for n in names)
+        char_casts = []
+        be = False
+        le = any(n.endswith('to_le_bytes') for n in names) or any(n.endswith('Unicode>::to_unicode') for n in names)
+        for bi in range(ub.n):
+            for stt in ub.blocks[bi]['stmts']:
+                if stt['s'] != 'assign':
+                    continue
+                rv = stt['rv']
+                if rv['rv'] == 'cast' and is_place_op(rv['op']) and not rv['op']['place']['p'] and ub.local_ty(rv['op']['place']['l']) == 'char':
+                    char_casts.append(where(ub, bi))
+                if rv['rv'] == 'agg' and rv.get('adt') == 'model::data::Value':
+                    le = le or rv.get('variant') == 'LE'
+                    be = be or rv.get('variant') == 'BE'
+        be = be or any(n.endswith('to_be_bytes') for n in names)
+        ctx.check(enc and not char_casts and le and not be, rid, 'utf16:%s' % fn.rsplit('::', 1)[-1] + (':ntlm' if fn.startswith('nla') else ''),
+                  '%s emits the UTF-16 code units of str::encode_utf16, little-endian' % fn.rsplit('::', 2)[-2 if fn.startswith('<') else -1], ub.where(),
+                  '%s does not produce UTF-16LE through str::encode_utf16 (%s): characters above U+FFFF need a surrogate pair, a `char as u16` truncates them'
+                  % (fn, 'char narrowed at %s' % char_casts[0] if char_casts else 'no encode_utf16' if not enc else 'byte order'))
+
+
 def run(ctx):
     P = ctx.prog
     spec = json.load(open(os.path.join(os.path.dirname(__file__), '..', 'spec', 'length_fields.json')))
@@ -193,29 +220,7 @@ def run(ctx):
     import c15
     ctx.include(c15.run, ('R15.1',), 'R04.3')
 
-    # ---- R04.6 the text encoders: UTF-16 code units from str::encode_utf16 (surrogate pairs above U+FFFF), written little-endian ---------
-    for fn in ('<std::string::String as model::unicode::Unicode>::to_unicode', 'nla::ntlm::unicode'):
-        ub = ctx.body(fn)
-        names = [c.callee for c in ub.calls]
-        enc = any(n.endswith('encode_utf16') for n in names) or any(n.endswith('Unicode>::to_unicode') or n.endswith('Unicode::to_unicode') for n in names)
-        char_casts = []
-        be = False
-        le = any(n.endswith('to_le_bytes') for n in names) or any(n.endswith('Unicode>::to_unicode') for n in names)
-        for bi in range(ub.n):
-            for stt in ub.blocks[bi]['stmts']:
-                if stt['s'] != 'assign':
-                    continue
-                rv = stt['rv']
-                if rv['rv'] == 'cast' and is_place_op(rv['op']) and not rv['op']['place']['p'] and ub.local_ty(rv['op']['place']['l']) == 'char':
-                    char_casts.append(where(ub, bi))
-                if rv['rv'] == 'agg' and rv.get('adt') == 'model::data::Value':
-                    le = le or rv.get('variant') == 'LE'
-                    be = be or rv.get('variant') == 'BE'
-        be = be or any(n.endswith('to_be_bytes') for n in names)
-        ctx.check(enc and not char_casts and le and not be, 'R04.6', 'utf16:%s' % fn.rsplit('::', 1)[-1] + (':ntlm' if fn.startswith('nla') else ''),
-                  '%s emits the UTF-16 code units of str::encode_utf16, little-endian' % fn.rsplit('::', 2)[-2 if fn.startswith('<') else -1], ub.where(),
-                  '%s does not produce UTF-16LE through str::encode_utf16 (%s): characters above U+FFFF need a surrogate pair, a `char as u16` truncates them'
-                  % (fn, 'char narrowed at %s' % char_casts[0] if char_casts else 'no encode_utf16' if not enc else 'byte order'))
+    rule_utf16(ctx, 'R04.6')
     # ---- R04.4 strings ---------------------------------------------------------------------------------------------------
     cd = ctx.body('core::gcc::client_core_data')
     # the text that is converted for clientName is limited in UTF-16 code units (<= 15) before the 32-byte resize
